@@ -36,14 +36,16 @@ CHANS = list(QubitChannel)
 
 
 class SymName:
-    """Symbolic qubit name: equality is equality of an underlying symbolic integer (injective naming)."""
-    def __init__(self, v: Sym, hfun):
+    """Symbolic qubit name: a pair (symbolic integer, symbolic case bit); two names are the same string iff both components are equal
+    (injective naming).  Case-changing string methods map onto the case bit, so a comparison that ignores case is observable."""
+    def __init__(self, v: Sym, hfun, c=0):
         self.v = v
+        self.c = c
         self._h = hfun
 
     def __eq__(self, other):
         if isinstance(other, SymName):
-            return self.v == other.v
+            return s_and(self.v == other.v, self.c == other.c)
         return False
 
     def __ne__(self, other):
@@ -52,20 +54,29 @@ class SymName:
 
     def __hash__(self):
         # explicit `.__hash__()` calls of the code under test get a term; see module docstring
-        return Sym(self.v.ctx, None, ast=self._h(self.v.z3()), is_int=True)
+        code = self.v * 2 + self.c
+        return Sym(self.v.ctx, None, ast=self._h(code.z3() if isinstance(code, Sym) else z3.IntVal(int(code))), is_int=True)
 
     def __lt__(self, other):
-        return self.v < other.v
+        return s_or(self.v < other.v, s_and(self.v == other.v, self.c < other.c))
+
+    def casefold(self):
+        return SymName(self.v, self._h, 0)
+
+    lower = casefold
+
+    def upper(self):
+        return SymName(self.v, self._h, 1)
 
     def __repr__(self):
-        return f"name<{self.v}>"
+        return f"name<{self.v},{self.c}>"
 
 
 def names(ctx, n):
     if ctx.mode == 'conc':
-        return [f"q{ctx.int_(f'n{i}')}" for i in range(n)]
+        return [("Q" if ctx.int_(f'c{i}', lo=0, hi=1) else "q") + f"{ctx.int_(f'n{i}')}" for i in range(n)]
     hs = z3.Function('Hstr', z3.IntSort(), z3.IntSort())
-    return [SymName(ctx.int_(f'n{i}'), hs) for i in range(n)]
+    return [SymName(ctx.int_(f'n{i}'), hs, ctx.int_(f'c{i}', lo=0, hi=1)) for i in range(n)]
 
 
 class _HashStub:
